@@ -168,6 +168,8 @@ class WeightedProbabilityBasedSquaredError(ProbabilityBasedLossFunction):
                 )
 
                 extracted_mat_inv = np.linalg.inv(extracted_mat)
+                # the inverse of a symmetric matrix is symmetric only up to rounding
+                extracted_mat_inv = (extracted_mat_inv + extracted_mat_inv.T) / 2
                 if row == 2 and col == 2:
                     weight_matrix[0, 0] = extracted_mat_inv[0, 0]
                 else:
